@@ -53,3 +53,41 @@ func VerifC16Transporter() {
 	}
 	zzverif.Reach("C16.transporter.read-loop-continues")
 }
+
+// VerifC20TwoTransactions: two exchanges of the same message type are outstanding on one control
+// connection (an frpc that owns an xtcp proxy and visits it, or two visitors): finishing one leaves
+// the other registered - its answer is still delivered, to it and to nobody else.
+func VerifC20TwoTransactions() {
+	zzverif.SetPreempt(zzverif.Param("preempt", 0))
+	sendCh := make(chan msg.Message, 4)
+	tr := NewMessageTransporter(sendCh)
+	type res struct {
+		m    msg.Message
+		err  error
+		done bool
+	}
+	var a, b res
+	go func() {
+		a.m, a.err = tr.Do(context.Background(), &msg.NatHoleVisitor{TransactionID: "ta"}, "ta", "NatHoleResp")
+		a.done = true
+	}()
+	go func() {
+		b.m, b.err = tr.Do(context.Background(), &msg.NatHoleClient{TransactionID: "tb"}, "tb", "NatHoleResp")
+		b.done = true
+	}()
+	zzverif.Quiesce()
+	zzverif.Assert(len(sendCh) == 2, "C20.twotx.both-requests-sent")
+	first := zzverif.Choice("answeredFirst", 2)
+	keys := []string{"ta", "tb"}
+	zzverif.Assert(tr.DispatchWithType(&msg.NatHoleResp{TransactionID: keys[first], Sid: "s-" + keys[first]}, "NatHoleResp", keys[first]), "C20.twotx.first-answer-delivered")
+	zzverif.Quiesce()
+	// the first exchange is over; the second one's answer arrives now
+	second := 1 - first
+	zzverif.Assert(tr.DispatchWithType(&msg.NatHoleResp{TransactionID: keys[second], Sid: "s-" + keys[second]}, "NatHoleResp", keys[second]), "C20.twotx.second-answer-still-delivered-after-the-first-exchange-ended")
+	zzverif.Quiesce()
+	zzverif.Assert(a.done && b.done && a.err == nil && b.err == nil, "C20.twotx.both-requesters-return")
+	ra, _ := a.m.(*msg.NatHoleResp)
+	rb, _ := b.m.(*msg.NatHoleResp)
+	zzverif.Assert(ra != nil && ra.Sid == "s-ta" && rb != nil && rb.Sid == "s-tb", "C20.twotx.each-requester-gets-its-own-answer")
+	zzverif.Reach("C20.twotx.done")
+}
